@@ -62,6 +62,18 @@ def _worker_chunk(args):
         for i in idxs:
             try:
                 one = isolate.call(_one_run, (base, i, tier), timeout=per_chunk_timeout // 2)
+            except isolate.ChildFailed as e:
+                if e.signal in isolate.CRASH_SIGNALS:
+                    # the process executing the run was killed by a fault signal while running library code:
+                    # a finding about the code under test, not about the harness
+                    name = isolate.CRASH_SIGNALS[e.signal]
+                    out['n'] += 1
+                    out['violations'].append({'i': i, 'violation': {'oracle': 'CRASH', 'key': 'CRASH:' + name, 'step': None,
+                                                                    'detail': 'the process executing this run died with ' + name},
+                                              'plan': ad.make_plan(base, i, tier)})
+                else:
+                    out['harness_errors'].append({'i': i, 'trace': traceback.format_exc()[-2000:]})
+                continue
             except Exception:
                 out['harness_errors'].append({'i': i, 'trace': traceback.format_exc()[-2000:]})
                 continue
